@@ -164,6 +164,8 @@ func TestC05_Cache(t *testing.T) {
 			asciiOnly("find " + tok.Draw(t, "q4w") + " files"),
 			asciiOnly(tok.Draw(t, "q5w")[:2]),
 			rapid.SampledFrom([]string{" ", "  ", "\t", " \t "}).Draw(t, "q6-blank"), // blank, not empty: the typo fallback still matches blanks
+			// phrases the language heuristics look for in the raw text (re-spelled in other letter cases below)
+			asciiOnly(rapid.SampledFrom([]string{"previewing", "looking at", "reading", "display", "overview of"}).Draw(t, "q7-view") + " " + tok.Draw(t, "q7w") + " " + rapid.SampledFrom([]string{"without opening it", "without editing", "without opening"}).Draw(t, "q7-clue")),
 		}
 		opts := c05Options(t, toks)
 		var bigIdx []int
@@ -201,7 +203,16 @@ func TestC05_Cache(t *testing.T) {
 				} else if len(past) > 0 {
 					// repeats are what exercise the cache: re-issue an earlier request
 					// unchanged, or with only its option set changed
-					switch rapid.IntRange(0, 3).Draw(t, "repeat-mode") {
+					switch rapid.IntRange(0, 4).Draw(t, "repeat-mode") {
+					case 4: // the same query under the option set listed next to an earlier one (twins sit side by side)
+						p := past[rapid.IntRange(0, len(past)-1).Draw(t, "past")]
+						qi, oi = p[0], p[1]
+						if oi >= 0 {
+							oi += rapid.SampledFrom([]int{1, -1, 2}).Draw(t, "neighbour")
+							if oi < 0 || oi >= len(opts) {
+								oi = p[1]
+							}
+						}
 					case 0, 1:
 						p := past[rapid.IntRange(0, len(past)-1).Draw(t, "past")]
 						qi, oi = p[0], p[1]
@@ -265,15 +276,27 @@ func TestC05_Cache(t *testing.T) {
 				// map and the platform list are the same objects before and after
 				var cand []int
 				for i, o := range opts {
-					if len(o.ContextBoosts) > 0 || len(o.Platforms) > 0 {
+					// only the plain one-word-boost and one-platform entries are edited in place: the twin
+					// entries (weights a hair apart, split / joined lists) must stay what they are
+					plainBoost := len(o.ContextBoosts) == 1 && !math.IsInf(o.PipelineBoost, 0)
+					for _, v := range o.ContextBoosts {
+						if v != 3 && v != 1.5 && v != 1.2 && v != 2.5 && v != 7 {
+							plainBoost = false
+						}
+					}
+					if plainBoost || (len(o.Platforms) == 1 && !math.IsInf(o.PipelineBoost, 0) && len(o.ContextBoosts) == 0) {
 						cand = append(cand, i)
 					}
 				}
 				i := rapid.SampledFrom(cand).Draw(t, "which-opt")
 				lastWord := ""
 				if len(past) > 0 {
-					if last := past[len(past)-1]; last[1] >= 0 && (len(opts[last[1]].ContextBoosts) > 0 || len(opts[last[1]].Platforms) > 0) {
-						i = last[1] // the options of the request just made
+					if last := past[len(past)-1]; last[1] >= 0 {
+						for _, c := range cand {
+							if c == last[1] {
+								i = c // the options of the request just made
+							}
+						}
 					}
 					if f := strings.Fields(strings.ToLower(queries[past[len(past)-1][0]])); len(f) > 0 {
 						lastWord = f[0]
@@ -427,6 +450,10 @@ func TestC05_Overflow(t *testing.T) {
 		for i := 0; i < 40; i++ {
 			back := issued[rapid.IntRange(0, len(issued)-1).Draw(t, "tail")]
 			check(back, "repeat after overflow")
+		}
+		// and every request of the last 1.2 capacities once more, newest first: whatever slot was recycled, its key is asked again
+		for i := len(issued) - 1; i >= 0 && i >= len(issued)-capacity-capacity/5; i-- {
+			check(issued[i], "sweep after overflow")
 		}
 		rec.Case(true, map[string]any{"overflow": true, "capacity": capacity, "requests": total, "db": gen.BriefDB(cmds, 3)}, "overflow")
 	})
